@@ -110,7 +110,7 @@ def run(prop, tier, seed, ctx):
                     r.get("pattern"), r["program"][:120]), {k: r[k] for k in ("program", "pattern", "gen", "base")})
         validate(ws, src, prop, ctx, "derived patterns")
     else:
-        pairs = [(p, s) for p in B.PATTERNS for s in B.PROGRAMS]
+        pairs = [(p, s) for p in B.PATTERNS for s in B.PROGRAMS + B.UNDERSCORE_PROGRAMS]
         grid = shard_map("bind.cait", "record_chunk", pairs)
         ctx.cov["replayed_cases"] += len(grid)
         errs = [r for r in grid if r["n"] < 0]
